@@ -446,6 +446,9 @@ def write_evidence(prop, ev, cov, t0, violations, problems):
     ev["violations"] = violations
     ev["assumptions"] = ["theorems are about the Lean model; the tie to the C source is the regenerated NV/Gen constants and the correspondence run reported here",
                          "libc / kernel behaviour, the C compiler and code outside the modelled functions are not verified"] + list(prop.not_covered)
-    os.makedirs(os.path.join(E.VERIF, "evidence"), exist_ok=True)
-    with open(os.path.join(E.VERIF, "evidence", prop.id + ".json"), "w") as f:
+    # evidence of runs against another tree (NV_REPO = a scratch worktree with a seeded change) must not replace
+    # the evidence of /repo itself: such runs set NV_EVIDENCE_DIR
+    evdir = os.environ.get("NV_EVIDENCE_DIR") or os.path.join(E.VERIF, "evidence")
+    os.makedirs(evdir, exist_ok=True)
+    with open(os.path.join(evdir, prop.id + ".json"), "w") as f:
         json.dump(ev, f, indent=1, default=str)
